@@ -15,6 +15,7 @@ type verifQueueLog struct {
 	overlap     bool
 	closeDone   bool // GracefulClose has returned
 	lateAccept  bool // an enqueue that began after GracefulClose returned was accepted
+	lateRun     bool // an item ran after GracefulClose had returned
 	doneOK      bool // Done returned
 	doneMissing bool // Done returned although an earlier accepted item had not run
 }
@@ -36,6 +37,9 @@ func verifEnqueue(o *operations, l *verifQueueLog, id int, nested int) {
 	ok := o.tryEnqueue(func() {
 		if l.running {
 			l.overlap = true
+		}
+		if l.closeDone {
+			l.lateRun = true
 		}
 		l.running = true
 		l.ran = append(l.ran, id)
@@ -133,6 +137,7 @@ func VerifC05Queue() {
 	if withClose {
 		verif.Assert(l.closeDone, "graceful-close-returns")
 		verif.Assert(!l.lateAccept, "nothing-accepted-after-close")
+		verif.Assert(!l.lateRun, "nothing-runs-after-close-returned")
 		verif.Reach("closed")
 	}
 	verif.Reach("queue-end")
